@@ -54,6 +54,36 @@ pub(crate) unsafe fn realloc(ptr: *mut u8, layout: Layout, new_size: usize) -> *
     }
 }
 
+/// Access notes: the crate reports where it starts to read or write the text of a heap buffer
+/// (`ptr` = first text byte) and where it reads the header, to an installable observer.
+pub const NOTE_READ_TEXT: u8 = 0;
+pub const NOTE_WRITE_TEXT: u8 = 1;
+pub const NOTE_READ_HEADER: u8 = 2;
+
+pub struct AccessTable {
+    pub note: fn(u8, *const u8),
+}
+
+static ACCESS: AtomicPtr<AccessTable> = AtomicPtr::new(core::ptr::null_mut());
+
+/// Install (or, with `None`, remove) the access observer.
+pub fn install_access(table: Option<&'static AccessTable>) {
+    let p = match table {
+        Some(t) => t as *const AccessTable as *mut AccessTable,
+        None => core::ptr::null_mut(),
+    };
+    ACCESS.store(p, Ordering::SeqCst);
+}
+
+#[inline]
+pub(crate) fn note(kind: u8, ptr: *const u8) {
+    let p = ACCESS.load(Ordering::Relaxed);
+    if !p.is_null() {
+        // SAFETY: only `&'static AccessTable` or null is ever stored.
+        (unsafe { &*p }.note)(kind, ptr)
+    }
+}
+
 /// 0 = inline, 1 = heap, 2 = static
 pub fn kind(s: &LeanString) -> u8 {
     s.0.verif_kind()
